@@ -116,7 +116,19 @@ def case(g, tier, ci):
         calls.append({k2: v for k2, v in c.items() if not k2.startswith("_") or k2 == "_nocmp"})
         ops.append({**c, "_call": step})
         ops += snapshot(step)
-    return ops
+    # reference-level observation (BB.Model.Heap vs id() of the real objects): a summary before the first
+    # read-only call and one after each: nothing the user holds may change, no sharing may appear
+    names = sorted({o[k] for o in ops for k in ("id", "to") if isinstance(o.get(k), str)})
+    hs = {"op": "heap.summary", "vars": names}
+    out, first = [], True
+    for o in ops:
+        if first and (o.get("_snap") is not None):
+            out.append(dict(hs))
+            first = False
+        out.append(o)
+        if o.get("_call") is not None or o.get("_mutation") is not None:
+            out.append({**hs, "_after": "call" if o.get("_call") is not None else "mutation"})
+    return out
 
 
 def _eq_result(a, b):
